@@ -11,7 +11,7 @@ from ..common import codes, Violation
 
 ID = "C20"
 LEVEL = "exploration"
-RULE = ("Cases: 'tmp': TmpPool(fresh scratch dir, multi_proc) with a body of create / remove(j-th live path) / external os.remove then "
+RULE = ("Cases: 'tmp': TmpPool(fresh scratch dir, multi_proc) (single-process pools also with files created before the context is entered and with the context entered again from the body) with a body of create / remove(j-th live path) / external os.remove then "
         "pool.remove / external os.remove without telling the pool / flush / len / index operations; for every generated body the with-block is executed once without fault and once "
         "for EVERY position p at which the body raises (all fault positions enumerated); multi-process pools additionally fork 1..3 "
         "children (multiprocessing fork context) that each create 1..3 files inside the context; 'conc': the parent and 1..2 forked children remove (disjoint shares of) and create files of one multi_proc pool at the same time, with single os.remove/create turns granted by a generated schedule. 'files': FilePool over 0..5 distinct "
@@ -32,7 +32,7 @@ class Boom(Exception):
     pass
 
 
-TMP_OPS = ["create", "create", "remove", "ext_remove", "flush", "len", "index", "create", "remove", "ext_delete_only", "create"]
+TMP_OPS = ["create", "create", "remove", "ext_remove", "flush", "len", "index", "create", "remove", "ext_delete_only", "create", "reenter"]
 
 
 def dec_tmp(c):
@@ -124,6 +124,20 @@ def run_tmp_once(case, ctx, fault_at, sc, run_no):
                 flushed = True
                 if os.listdir(d):
                     fail("flush/files-left", "%d files left after flush()" % len(os.listdir(d)))
+            elif k == "reenter" and not multi and use_with:
+                # the context of a (single-process) pool that already owns files is entered again, e.g. by a helper the pool was
+                # handed to: the files created before stay the pool's, and leaving the inner context removes everything
+                with pool:
+                    p = pool.create()
+                    everything.append(p)
+                    live.append(p)
+                    if not check("reenter"):
+                        return
+                live.clear()
+                gone.clear()
+                if os.listdir(d):
+                    fail("reenter/files-left", "%d files left after leaving the inner context" % len(os.listdir(d)))
+                ctx.label("context-entered-while-owning-files")
             elif k == "len":
                 if len(pool) != len(live):
                     fail("len/wrong", "len %d vs %d" % (len(pool), len(live)))
@@ -141,7 +155,16 @@ def run_tmp_once(case, ctx, fault_at, sc, run_no):
         raised = None
         try:
             if use_with:
+                if not multi:
+                    # a single-process pool may be used before its context is entered; those files are the pool's as well
+                    for _ in range(case.get("pre", 0)):
+                        p = pool.create()
+                        everything.append(p)
+                        live.append(p)
+                        ctx.label("created-before-the-context-was-entered")
                 with pool:
+                    if not multi and case.get("pre") and not check("enter"):
+                        return
                     if multi and case.get("children"):
                         mp = multiprocessing.get_context("fork")
                         for n in case["children"]:
@@ -467,7 +490,7 @@ def strategies(tier):
     big = tier == "thorough"
     body = st.one_of(codes(0, 5), codes(3, 12)).map(lambda cs: [dec_tmp(c) for c in cs])
     single = st.fixed_dictionaries({"kind": st.just("tmp"), "multi": st.just(False), "use_with": st.sampled_from([True, True, True, False]),
-                                    "body": body})
+                                    "pre": st.sampled_from([0, 0, 0, 1, 2]), "body": body})
     multi = st.fixed_dictionaries({"kind": st.just("tmp"), "multi": st.just(True), "use_with": st.just(True),
                                    "children": st.lists(st.integers(1, 3), min_size=0, max_size=3),
                                    "body": codes(0, 6).map(lambda cs: [dec_tmp(c) for c in cs])})
